@@ -783,7 +783,7 @@ pub fn directed(ctx: &Ctx, want: &str) -> Report {
 
 /// seeded random histories
 pub fn random(ctx: &Ctx, want: &str) -> Report {
-    let n_hist = ctx.budget(10, 6_000, 400_000);
+    let n_hist = ctx.budget(10, 40_000, 4_000_000);
     let shards = if ctx.tier == Tier::Small { 2 } else { 128usize };
     par_shards(ctx, shards, |sh| {
         let mut rep = Report::new();
@@ -814,7 +814,7 @@ pub fn slow(ctx: &Ctx, want: &str) -> Report {
     if ctx.tier == Tier::Small {
         return Report::new();
     }
-    let n = ctx.budget(0, 12, 96) as usize;
+    let n = ctx.budget(0, 16, 400) as usize;
     par_shards(ctx, n, |j| {
         let mut rep = Report::new();
         let mut r = Rng::derive(ctx.seed, "adsr.slow", j as u64);
